@@ -729,7 +729,7 @@ def syms(draw):
 
 _syms = syms()
 _dexp = st.integers(-12, -3)
-_dman = st.sampled_from([1.0, 1.0, 1.3, 2.0, 2.9, -1.0, -1.7, -2.5])
+_dman = st.sampled_from([1.0, 1.0, 1.3, 2.0, 2.9, 4.0, 7.0, -1.0, -1.7, -2.5, -5.0])
 
 
 @st.composite
